@@ -41,7 +41,7 @@ pub trait DeriveShape {
 impl DeriveShape for FuncDef {
     fn derive_shape(&self, symbol_table: &mut BTreeMap<Rc<str>, Shape>) -> Shape {
         // 1. First set up our symbols.
-        let mut sym_table = self
+        let mut args = self
             .argdefs
             .iter()
             .map(|(sym, constraint)| {
@@ -53,7 +53,9 @@ impl DeriveShape for FuncDef {
                 (sym.val.clone(), shape)
             })
             .collect::<BTreeMap<Rc<str>, Shape>>();
-        sym_table.append(&mut symbol_table.clone());
+        // The parameters shadow any outer binding of the same name inside the body.
+        let mut sym_table = symbol_table.clone();
+        sym_table.append(&mut args);
         // 2. Then determine the shapes of those symbols in our expression.
         let shape = self.fields.derive_shape(&mut sym_table);
         // 3. Finally determine what the return shape can be.
